@@ -2,7 +2,6 @@ package main
 
 import (
 	"fmt"
-	"go/token"
 	"go/types"
 	"os"
 	"path/filepath"
@@ -87,8 +86,8 @@ func loadProgram(repoDir, pkgPath string, overlayFiles map[string]string) (*prog
 var noInitPrefixes = []string{
 	"github.com/pingcap/kvproto", "github.com/pingcap/tipb", "github.com/gogo/protobuf", "github.com/golang/protobuf",
 	"google.golang.org/", "github.com/prometheus/", "go.uber.org/zap", "go.uber.org/multierr", "github.com/opentracing/",
-	"github.com/grpc-ecosystem/", "go.etcd.io/", "github.com/tikv/pd/client", "github.com/coreos/",
-	"net", "os", "syscall", "reflect", "crypto", "runtime", "internal/", "encoding/json", "encoding/xml", "encoding/gob",
+	"github.com/grpc-ecosystem/", "go.etcd.io/", "github.com/coreos/",
+	"net", "os", "syscall", "reflect", "io/ioutil", "crypto", "runtime", "internal/", "encoding/json", "encoding/xml", "encoding/gob",
 	"regexp", "html", "text/template", "compress", "archive", "database", "debug", "go/", "image", "mime", "testing",
 	"vendor/", "golang.org/x/", "github.com/pingcap/goleveldb", "github.com/pingcap/log", "github.com/pingcap/failpoint",
 	"log", "expvar", "flag", "github.com/cznic", "github.com/golang/snappy", "github.com/klauspost", "gopkg.in/",
@@ -233,8 +232,85 @@ func (p *program) runOneInit(in *interpreter, pkg *ssa.Package, initFn *ssa.Func
 	if g, ok := pkg.Members["init$guard"].(*ssa.Global); ok {
 		*in.globals[g] = false
 	}
-	call(in, nil, token.NoPos, initFn, nil)
+	// Interpret the init body instruction by instruction: an instruction
+	// that cannot be executed yields a poison value and execution continues,
+	// so one unsupported initialiser does not lose the rest of the package.
+	info := infoOf(initFn)
+	fr := &frame{i: in, fn: initFn, info: info}
+	fr.env = make([]value, info.n)
+	fr.locals = make([]value, len(initFn.Locals))
+	for k, l := range initFn.Locals {
+		fr.locals[k] = zero(mustDeref(l.Type()))
+		fr.env[info.idx[l]] = &fr.locals[k]
+	}
+	fr.block = initFn.Blocks[0]
+	var fails []string
+	for fr.block != nil {
+		nonPhis := executePhis(fr)
+		jumped := false
+		for _, instr := range nonPhis {
+			cont, failed := tolerantStep(fr, instr)
+			if failed != "" {
+				if len(fails) < 4 {
+					fails = append(fails, failed)
+				}
+				if v, ok := instr.(ssa.Value); ok {
+					fr.env[info.idx[v]] = poison{}
+				}
+				if st, ok := instr.(*ssa.Store); ok {
+					if g, ok := st.Addr.(*ssa.Global); ok {
+						*in.globals[g] = poison{}
+					}
+				}
+				switch instr.(type) {
+				case *ssa.If, *ssa.Jump, *ssa.Return, *ssa.Panic:
+					fr.block = nil
+					jumped = true
+				}
+				if jumped {
+					break
+				}
+				continue
+			}
+			if cont == kReturn {
+				fr.block = nil
+				jumped = true
+				break
+			}
+			if cont == kJump {
+				jumped = true
+				break
+			}
+		}
+		if !jumped {
+			break
+		}
+	}
+	if len(fails) > 0 {
+		return "partial: " + strings.Join(fails, "; ")
+	}
 	return ""
+}
+
+func tolerantStep(fr *frame, instr ssa.Instruction) (cont continuation, failed string) {
+	defer func() {
+		if r := recover(); r != nil {
+			switch r := r.(type) {
+			case unsupported:
+				failed = r.Error()
+			case pathEnd:
+				failed = "pathEnd " + r.kind + " " + r.detail
+			case targetPanic:
+				failed = "panic: " + r.String()
+			case engineFault:
+				failed = "engine fault: " + r.msg
+			default:
+				failed = fmt.Sprintf("host panic: %v", r)
+			}
+		}
+	}()
+	fr.i.steps = 0
+	return visitInstr(fr, instr), ""
 }
 
 // harnessFiles returns overlay mappings for a harness directory.
